@@ -1300,9 +1300,18 @@ func (r *Run) measurementObjectFresh() {
 		}
 		info := fn.Info()
 		isFreshLit := func(x ast.Expr) bool {
+			// a literal, directly or as what a builder of the repository returns (newSignedLatency())
+			if o, _ := r.originOf(fn, x, 0); o != nil {
+				x = o
+			}
 			x = ast.Unparen(x)
 			if u, ok := x.(*ast.UnaryExpr); ok && u.Op == token.AND {
 				x = ast.Unparen(u.X)
+			}
+			if call, ok := x.(*ast.CallExpr); ok {
+				if b, isB := calleeObj(info, call).(*types.Builtin); isB && b.Name() == "new" {
+					return true
+				}
 			}
 			_, ok := x.(*ast.CompositeLit)
 			return ok
@@ -1356,6 +1365,39 @@ func (r *Run) measurementObjectFresh() {
 			}
 			r.Check("I2", fn.Name+":measurement-object-created-with-the-participant", fresh, v.Pos(),
 				"the participant built in %s gets %s as its measurement object, which is not created there: a measurement begun for another participant (an earlier session of the connection) carries on under this one", fn.Name, r.P.exprStr(v))
+			return true
+		})
+		// … or given to the participant field by field: p.SignedLatency = …
+		slField := r.P.LookupField(pkgModels, "Participant", "SignedLatency")
+		ast.Inspect(fn.Body, func(nd ast.Node) bool {
+			as, ok := nd.(*ast.AssignStmt)
+			if !ok || slField == nil {
+				return true
+			}
+			for i, l := range as.Lhs {
+				se, ok := ast.Unparen(l).(*ast.SelectorExpr)
+				if !ok || r.P.selField(info, se) != slField {
+					continue
+				}
+				n++
+				fresh := len(as.Rhs) == len(as.Lhs) && isFreshLit(as.Rhs[i])
+				r.Check("I2", fn.Name+":measurement-object-created-with-the-participant", fresh, as.Pos(),
+					"a participant is given a measurement object in %s that is not created there: a measurement begun for another participant (an earlier session of the connection) carries on under this one", fn.Name)
+			}
+			return true
+		})
+	}
+	// (constructors of the models package)
+	for _, fn := range r.P.All {
+		if fn.Body == nil || fn.Pkg.PkgPath != pkgModels {
+			continue
+		}
+		ast.Inspect(fn.Body, func(nd ast.Node) bool {
+			if cl, ok := nd.(*ast.CompositeLit); ok {
+				if t := fn.Info().TypeOf(cl); t != nil && types.Identical(t, pt.Type()) && litField(cl, "SignedLatency") != nil {
+					n++
+				}
+			}
 			return true
 		})
 	}
